@@ -312,6 +312,38 @@ void check(const Case &c, mc::Ctx &ctx) {
   ctx.count_max("max_stream_bytes", buffer.size());
   ctx.state(mc::hash_bytes(buffer.data(), buffer.size()));
 
+  // classification of the input (counted for every case that reaches the decoder)
+  if (any_quant) ctx.count("cases_with_quantized_track");
+  if (T >= 2) {
+    bool mixed = false;
+    for (int k = 1; k < T; ++k)
+      if (c.tracks[k].kind != c.tracks[0].kind || c.tracks[k].comps != c.tracks[0].comps) mixed = true;
+    if (mixed) ctx.count("cases_with_mixed_track_types");
+    bool qmix = false;
+    for (int k = 1; k < T; ++k)
+      if ((c.tracks[k].quant > 0) != (c.tracks[0].quant > 0)) qmix = true;
+    if (qmix) ctx.count("cases_with_mixed_quantization");
+  }
+  // non-trivial: a permutation of the frames would be observable
+  bool observable = false;
+  if (c.frames >= 2) {
+    if (c.ts_mode != 1) observable = true;
+    for (int k = 0; k < T && !observable; ++k) {
+      const size_t fb = ref[k].size() / c.frames;
+      for (int i = 1; i < c.frames; ++i)
+        if (memcmp(&ref[k][0], &ref[k][size_t(i) * fb], fb) != 0) { observable = true; break; }
+    }
+  }
+  if (observable) {
+    uint64_t h = mc::hash_combine(c.frames, mc::hash_combine(c.ts_mode, mc::hash_combine(c.speed, c.order)));
+    for (int k = 0; k < T; ++k) {
+      h = mc::hash_combine(h, c.tracks[k].kind * 1000 + c.tracks[k].comps * 20 + c.tracks[k].quant);
+      h = mc::hash_combine(h, mc::hash_bytes(ref[k].data(), ref[k].size()));
+    }
+    ctx.nontrivial(h);
+    ctx.count("cases_frame_order_observable");
+  }
+
   // decode
   DecoderBuffer db;
   db.Init(buffer.data(), buffer.size());
@@ -345,47 +377,16 @@ void check(const Case &c, mc::Ctx &ctx) {
   for (int k = 0; k < T; ++k) {
     const Track &t = c.tracks[k];
     const bool quantized = t.quant > 0 && is_float(t.kind);
+    ctx.count(quantized ? "quantized_tracks_compared" : (is_float(t.kind) ? "exact_float_tracks_compared" : "exact_int_tracks_compared"));
+    if (t.quant > 0 && !is_float(t.kind)) ctx.count("int_tracks_with_quantization_requested_compared_exact");
     std::string w = compare_track(dec.keyframes(ids[k]), t, ref[k], c.frames, !quantized, &d, &worst);
     if (!w.empty()) {
       ctx.fail(std::string(quantized ? "quantized-track-" : "exact-track-") + w, show(c) + " :: track " + std::to_string(k) + " id " + std::to_string(ids[k]) + ": " + d);
       return;
     }
-    ctx.count(quantized ? "quantized_tracks_checked" : (is_float(t.kind) ? "exact_float_tracks_checked" : "exact_int_tracks_checked"));
-    if (t.quant > 0 && !is_float(t.kind)) ctx.count("int_tracks_with_quantization_requested_checked_exact");
   }
-  if (any_quant) {
-    ctx.count("cases_with_quantized_track");
-    ctx.count_max("max_quantization_error_permille_of_bound", uint64_t(worst * 1000.0));
-  }
-  if (T >= 2) {
-    bool mixed = false;
-    for (int k = 1; k < T; ++k)
-      if (c.tracks[k].kind != c.tracks[0].kind || c.tracks[k].comps != c.tracks[0].comps) mixed = true;
-    if (mixed) ctx.count("cases_with_mixed_track_types");
-    bool qmix = false;
-    for (int k = 1; k < T; ++k)
-      if ((c.tracks[k].quant > 0) != (c.tracks[0].quant > 0)) qmix = true;
-    if (qmix) ctx.count("cases_with_mixed_quantization");
-  }
-  // non-trivial: a permutation of the frames would be observable
-  bool observable = false;
-  if (c.frames >= 2) {
-    if (c.ts_mode != 1) observable = true;
-    for (int k = 0; k < T && !observable; ++k) {
-      const size_t fb = ref[k].size() / c.frames;
-      for (int i = 1; i < c.frames; ++i)
-        if (memcmp(&ref[k][0], &ref[k][size_t(i) * fb], fb) != 0) { observable = true; break; }
-    }
-  }
-  if (observable) {
-    uint64_t h = mc::hash_combine(c.frames, mc::hash_combine(c.ts_mode, mc::hash_combine(c.speed, c.order)));
-    for (int k = 0; k < T; ++k) {
-      h = mc::hash_combine(h, c.tracks[k].kind * 1000 + c.tracks[k].comps * 20 + c.tracks[k].quant);
-      h = mc::hash_combine(h, mc::hash_bytes(ref[k].data(), ref[k].size()));
-    }
-    ctx.nontrivial(h);
-    ctx.count("cases_frame_order_observable");
-  }
+  if (any_quant) ctx.count_max("max_quantization_error_permille_of_bound", uint64_t(worst * 1000.0));
+  ctx.count("roundtrip_ok");
 }
 
 // ---------------------------------------------------------------- the spaces
@@ -543,11 +544,11 @@ int main(int argc, char **argv) {
     return c;
   });
   // thorough: every (type, components, quantization) triple
-  add(R, "t3_full", 216000ull * 4 * 3 * 2, false, true, [](uint64_t idx) {
-    mc::Radix rx{60, 60, 60, 4, 3, 2};
+  add(R, "t3_full", 216000ull * 2 * 3 * 2, false, true, [](uint64_t idx) {
+    mc::Radix rx{60, 60, 60, 2, 3, 2};
     auto d = rx.decode(idx);
     Case c;
-    c.frames = int(d[3]) + 1;
+    c.frames = int(d[3]) + 2;  // 2 or 3 frames (1 and 4 frames: t1_*, t2_full)
     for (int k = 0; k < 3; ++k) {
       Track t;
       const int x = int(d[k]);
@@ -592,10 +593,8 @@ int main(int argc, char **argv) {
   }, 60);
 
   R.require("encode_ok", 1000);
-  R.require("decode_ok", 1000);
-  R.require("quantized_tracks_checked", 100);
-  R.require("exact_float_tracks_checked", 100);
-  R.require("exact_int_tracks_checked", 100);
+  // guards are on what was *submitted to the comparison*, so that a broken draco yields violations, not guard errors
+  R.require("cases_with_quantized_track", 100);
   R.require("cases_with_mixed_quantization", 100);
   R.require("cases_with_mixed_track_types", 100);
   R.require("cases_frame_order_observable", 1000);
